@@ -45,6 +45,10 @@ class Missing(metaclass=MissingType):
     def __repr__(self) -> str:
         return "MISSING"
 
+    def __reduce__(self) -> Any:
+        # copy, deepcopy and pickle have to resolve to the singleton
+        return (Missing, ())
+
     def __getattr__(
         self,
         name: str,
